@@ -5,6 +5,7 @@ registry afterwards (`PyDomainEq.RepX`, exact) and the results correspond (`toId
 of `#print axioms` below for what is done.
 -/
 import DsdVerif.Lemmas.PyDomainEqIdent
+import DsdVerif.Lemmas.PyDomainEqIdent2
 
 namespace Dsd.PyDomain2
 open Dsd Dsd.Gen Dsd.PyDomainEq
@@ -32,6 +33,15 @@ theorem py_identifiers_starred_length (request : Py.Dom.Req → Py.Dom.M Nat) (n
         (toIdents (DomFull.identifiers nested cfg r { name := some n, length := some l, prefix_ := pfx }).2, s') :=
   identifiers_starred_length request nested tmp hrel s r h cfg n hne hst l pfx
 
+/-- (c), branch "unstarred name only": no nested request is made, whatever `request` / `nested` are; nothing changes, canon is None -/
+theorem py_identifiers_plain_name (request : Py.Dom.Req → Py.Dom.M Nat) (nested : Reg DKey → DomReq → Reg DKey × Out) (tmp : Nat)
+    (s : Py.Dom.Cls) (r : Reg DKey) (cfg : DomCfg) (n : String) (hne : n ≠ "") (hst : isStarred n = false) (pfx : Option String) :
+    (DomFull.identifiers nested cfg r { name := some n, prefix_ := pfx }).1 = r ∧
+    (py_DomainS_identifiers request tmp cfg.cutoff cfg.shortLen cfg.longLen cfg.prefix_ (some n) none pfx none).exec s =
+      (toIdents (DomFull.identifiers nested cfg r { name := some n, prefix_ := pfx }).2, s) :=
+  identifiers_plain_name request nested tmp s r cfg n hne hst pfx
+
+#print axioms py_identifiers_plain_name
 #print axioms rep_init
 #print axioms py_drop_eq
 #print axioms py_lenTemp_eq
